@@ -171,6 +171,15 @@ class H:
         ctx = current_context()
         tid = spec["id"]
         dur = spec.get("dur", 0.0)
+
+        def boom() -> None:
+            # an ordinary teardown callback that fails - with an Exception or with something
+            # that is not one: everything registered before it still has to be torn down
+            if spec.get("raises"):
+                e = self.tag.make(spec["raises"])
+                sim.fault("raise_in_callback")
+                sim.log("cb_raise", cb=tid, ctx=cid, exc=describe(e))
+                raise e
         if spec.get("async"):
 
             async def cb() -> None:
@@ -181,12 +190,14 @@ class H:
                     # its finalizer goes on top of the stack and runs next
                     await self.svc(spec["svc"], cid)
                 sim.log("cb_end", cb=tid, ctx=cid)
+                boom()
 
         else:
 
             def cb() -> None:  # type: ignore[misc]
                 sim.log("cb_start", cb=tid, ctx=cid)
                 sim.log("cb_end", cb=tid, ctx=cid)
+                boom()
 
         sim.log("reg_begin", cb=tid, ctx=cid, kind="td")
         ctx.add_teardown_callback(cb)
@@ -1195,6 +1206,8 @@ class G:
                 out.append(["res", {"rid": self.nid("r"), "async": rng.random() < 0.5, "dur": rng.choice(DTS[:5])}])
             elif op == "td":
                 tdspec: dict[str, Any] = {"id": self.nid("c"), "async": rng.random() < 0.6, "dur": rng.choice(DTS[:5])}
+                if self.prop == "C08" and rng.random() < 0.12:
+                    tdspec["raises"] = rng.choice(("SimError", "SimFatal", "KI", "SE"))
                 if self.prop == "C08" and tdspec["async"] and rng.random() < 0.15 and self.nsvc < 4 and not self.no_svc:
                     late = self.svc(False)[1]
                     late["body"].pop("start_delay", None)
